@@ -244,6 +244,7 @@ impl Iterator for NodeSplitIterator<'_> {
             return None;
         }
 
+        verif_point!("split_iter:next");
         let char_start = self.char_offset;
         let byte_start = self.byte_offset;
 
